@@ -4,7 +4,7 @@ cell   ::= N | B:0|1 | NB:0|1 | I:<int> | NI:<int> | F:<int> (value/4) | NF:<int
          | S:<hex utf8> | T:<us since 0001-01-01> | DT:<us> (a datetime.date)
 value  ::= cell | (L v*) | (T v*) | (D (hexkey v)*)
 The N-prefixed spellings are numpy scalars (np.bool_, np.int64, np.float64; NF:nan is the shared np.nan
-object, F:nan a fresh float('nan') per occurrence); the Lean side maps them to the same cells.
+object, F:nan a fresh float('nan') per occurrence, XF:nan a NaN held by an np.float64 scalar); the Lean side maps them to the same cells.
 """
 import datetime, math
 from fractions import Fraction
@@ -58,9 +58,9 @@ def enc(v):
     if isinstance(v, np.integer):
         return 'NI:%d' % int(v)
     if isinstance(v, np.floating):
-        return enc_float(float(v), 'NF')
+        return 'XF:nan' if v != v else enc_float(float(v), 'NF')
     if isinstance(v, float):
-        return enc_float(v)
+        return 'NF:nan' if v is np.nan else enc_float(v)
     if isinstance(v, Fraction):
         q = v * 4
         if q.denominator != 1:
@@ -125,9 +125,9 @@ def dec_cell(a):
         return int(body)
     if tag == 'NI':
         return np.int64(int(body))
-    if tag in ('F', 'NF'):
+    if tag in ('F', 'NF', 'XF'):
         if body == 'nan':
-            return np.nan if tag == 'NF' else float('nan')
+            return np.float64('nan') if tag == 'XF' else np.nan if tag == 'NF' else float('nan')
         if body == 'inf':
             return float('inf')
         if body == '-inf':
@@ -171,7 +171,7 @@ def canon_cell(a, numeric=True):
         return ('B', body == '1')
     if tag in ('I', 'NI'):
         return ('F', Fraction(int(body))) if numeric else ('I', int(body))
-    if tag in ('F', 'NF'):
+    if tag in ('F', 'NF', 'XF'):
         if body in ('nan', 'inf', '-inf'):
             return ('F', body)
         return ('F', Fraction(int(body), 4))
